@@ -115,7 +115,11 @@ func scalePolys(polys [][][]vkit.P2, e int) [][][]vkit.P2 {
 	return out
 }
 
+// unchanged reports whether the coordinate array shared by all rings of the polygonal still holds what it was given.
+var unchanged = func() string { return "" }
+
 func polygonal(c Case) (geom.Polygonal, [][][]vkit.P2) {
+	unchanged = func() string { return "" }
 	if c.Box {
 		a, b := c.Polys[0][0][0], c.Polys[0][0][1]
 		mn := vkit.MkP(math.Min(float64(a[0]), float64(b[0])), math.Min(float64(a[1]), float64(b[1])))
@@ -123,7 +127,10 @@ func polygonal(c Case) (geom.Polygonal, [][][]vkit.P2) {
 		bd := &geom.Bounds{Min: scaleP(mn, c.ScaleExp).Pt(), Max: scaleP(mx, c.ScaleExp).Pt()}
 		return bd, [][][]vkit.P2{{{mn, {mx[0], mn[1]}, mx, {mn[0], mx[1]}}}}
 	}
-	mp := vkit.GJ{T: "MultiPolygon", Polys: scalePolys(c.Polys, c.ScaleExp)}.Geom().(geom.MultiPolygon)
+	// all rings are consecutive sub-slices of one flat array with spare capacity (see vkit.SharedGeom)
+	sg, same := vkit.SharedGeom(vkit.GJ{T: "MultiPolygon", Polys: scalePolys(c.Polys, c.ScaleExp)})
+	mp := sg.(geom.MultiPolygon)
+	unchanged = same
 	if c.AsPoly && len(mp) == 1 {
 		return mp[0], c.Polys
 	}
@@ -155,6 +162,9 @@ func run(c Case) (v vkit.Verdict) {
 			}
 		}
 		got := int(scaleP(c.Pt, c.ScaleExp).Pt().Within(P))
+		if m := unchanged(); m != "" {
+			return v.Fail("Point.Within changed the polygon it was given (rings are sub-slices of one array): %s", m)
+		}
 		if c.ScaleExp != 0 {
 			v.Class("scaled_by_power_of_two")
 		}
@@ -198,6 +208,9 @@ func run(c Case) (v vkit.Verdict) {
 			}
 		}
 		got := g.(geom.Withiner).Within(P)
+		if m := unchanged(); m != "" {
+			return v.Fail("%s.Within changed the polygon it was given (rings are sub-slices of one array): %s", c.Recv.T, m)
+		}
 		v.NonTrivial = len(verts) >= 2
 		v.Class("recv_" + c.Recv.T)
 		if (got == geom.Outside) != wantOutside {
